@@ -2,7 +2,7 @@
    Statements only (copied from the lemma libraries); every proof is a bare
    `exact`; see the cited files in coq/proofs for the proofs. *)
 From Coq Require Import List NArith ZArith Bool Arith Sorting.Sorted Sorting.Permutation.
-From D2P Require Import Str Err Xml TableTypes Tables Fmt Bullets Merge Collector Walk ShapeFacts TokFacts FrameFacts BulletsFacts LineageFacts Predicates SeqFacts Iter Output.
+From D2P Require Import Str Err Xml TableTypes Tables Fmt Bullets Merge Collector Walk ShapeFacts TokFacts FrameFacts BulletsFacts LineageFacts Predicates SeqFacts Iter Output Paths Package Content Utilities UtilFacts.
 Import ListNotations.
 
 (* for EVERY table written as tbl/tr/tc/p directly nested (any number of rows, cells, paragraphs, any merged cells, any inline content), walked from any reachable state in any part: every paragraph it contributes reports the lineage (tbl, tr, tc, p) - or is the empty fill paragraph of a blanked merged position *)
@@ -155,3 +155,22 @@ Theorem C05_blocks_open_refuted :
   exists s', kids_loop cx_env [] [cx_tbl2] 0%nat init_cst = Ok s' /\ c_open s' <> [].
 Proof. exact blocks_walk_counterexample. Qed.
 Print Assumptions C05_blocks_open_refuted.
+
+(* the heading helper yields, in order, the run strings (html on) of exactly the paragraph records of document_pars whose style id matches Heading followed by a digit - it selects on the style id C05_elem_and_style says is the source paragraph's pStyle *)
+Theorem C05_heading_helper :
+  forall a l,
+  get_headings a = Ok l <->
+  exists pars ps,
+    document_pars a heading_opts = Ok pars
+    /\ iter_at_depth pars 4%nat = Ok (map RA ps)
+    /\ mapM (par_run_strings true) (filter is_heading ps) = Ok l.
+Proof. exact get_headings_spec. Qed.
+Print Assumptions C05_heading_helper.
+
+(* the pattern: Heading, then a decimal digit (any Unicode Nd digit, as the re module's \d; table compared with re on every run), anything after *)
+Theorem C05_heading_pattern :
+  forall s,
+  heading_match s = true <->
+  exists d rest, s = s_Heading ++ d :: rest /\ is_unicode_digit d = true.
+Proof. exact heading_match_spec. Qed.
+Print Assumptions C05_heading_pattern.
